@@ -39,6 +39,8 @@ struct Th {
     role: &'static str,
     prio: i64,
     pending_sig: i32,
+    hold: u64,
+    upark: bool,
 }
 
 #[derive(Clone)]
@@ -82,6 +84,22 @@ pub struct SchedCfg {
     pub starve: Vec<String>,
     pub starve_p: f64,
     pub list: Vec<usize>,
+    // user-space preemption: with probability ustep_p per resumed segment the thread is single-stepped for a seeded
+    // number of instructions (< ustep_max) and parked there, between two system calls
+    pub ustep_p: f64,
+    pub ustep_max: u64,
+    pub ustep_main: bool,
+    // aim: count only instructions inside the project's own functions (symbol table), so that the parking position falls
+    // into libxcp / libfs / xcp code rather than into libc or std
+    pub ustep_aim: bool,
+    // atomic-instruction mode (the scheduling points loom/shuttle use): step to the n-th LOCK-prefixed / xchg instruction of the
+    // segment (n <= ustep_locks), then a seeded number (< ustep_after) of further instructions, and park there
+    pub ustep_locks: u64,
+    pub ustep_after: u64,
+    // a thread parked in user space is not eligible for a seeded number (<= ustep_hold) of the following decisions
+    pub ustep_hold: u64,
+    // total single-steps per run (cost bound); user-space preemption stops for the rest of the run once it is used up
+    pub ustep_budget: u64,
 }
 
 pub struct Cfg {
@@ -130,6 +148,12 @@ pub struct Sup {
     wake_rng: Rng,
     rand_rng: Rng,
     prio_rng: Rng,
+    ustep_rng: Rng,
+    usteps: u64,
+    proj: Vec<(u64, u64)>,
+    proj_loaded: bool,
+    force_park: bool,
+    seg_cpu0: u64,
     pct_points: Vec<u64>,
     pct_low: i64,
     cur: Option<usize>,
@@ -150,6 +174,29 @@ pub struct Sup {
 }
 
 static mut ALARMED: bool = false;
+// hard per-segment guard and the 100 ms tick used (only in runs with user-space preemption) to notice a thread that
+// spin-waits on another thread parked in user space
+static mut DEADLINE_NS: u64 = 0;
+static mut TICKING: bool = false;
+static mut TICK_RETURNS: bool = false;
+
+fn mono_ns() -> u64 {
+    let mut ts: libc::timespec = unsafe { std::mem::zeroed() };
+    unsafe { libc::clock_gettime(libc::CLOCK_MONOTONIC, &mut ts) };
+    ts.tv_sec as u64 * 1_000_000_000 + ts.tv_nsec as u64
+}
+
+fn past_deadline() -> bool {
+    unsafe { !TICKING || mono_ns() >= DEADLINE_NS }
+}
+
+fn thread_cpu_ns(pid: i32, tid: i32) -> u64 {
+    // on-CPU time of one thread of the tracee (per-thread CPU clocks of another process are not readable with clock_gettime)
+    std::fs::read_to_string(format!("/proc/{}/task/{}/schedstat", pid, tid))
+        .ok()
+        .and_then(|x| x.split_whitespace().next().and_then(|y| y.parse::<u64>().ok()))
+        .unwrap_or(0)
+}
 extern "C" fn on_alarm(_: i32) {
     unsafe { ALARMED = true };
 }
@@ -175,7 +222,10 @@ fn wait_tid(tid: i32) -> Ev {
             let e = std::io::Error::last_os_error().raw_os_error().unwrap_or(0);
             if e == libc::EINTR {
                 if unsafe { ALARMED } {
-                    return Ev::Timeout;
+                    if unsafe { TICK_RETURNS } || past_deadline() {
+                        return Ev::Timeout;
+                    }
+                    unsafe { ALARMED = false };
                 }
                 continue;
             }
@@ -246,6 +296,12 @@ impl Sup {
             wake_rng: Rng::new(seed, "wake"),
             rand_rng: Rng::new(seed, "getrandom"),
             prio_rng: Rng::new(seed, "prio"),
+            ustep_rng: Rng::new(seed, "ustep"),
+            usteps: 0,
+            proj: Vec::new(),
+            proj_loaded: false,
+            force_park: false,
+            seg_cpu0: 0,
             pct_points: Vec::new(),
             pct_low: -1,
             cur: None,
@@ -429,6 +485,8 @@ impl Sup {
             role: "main",
             prio: 0,
             pending_sig: 0,
+            hold: 0,
+            upark: false,
         });
         let p = self.new_prio();
         self.ths[0].prio = p;
@@ -459,8 +517,17 @@ impl Sup {
     }
 
     fn pick_inner(&mut self, ready: &[usize]) -> usize {
+        // threads parked in user space stay parked for a while (a longer preemption), unless nothing else can run
+        let mut cand: Vec<usize> = ready.iter().cloned().filter(|&i| self.ths[i].hold == 0).collect();
+        for &i in ready {
+            if self.ths[i].hold > 0 {
+                self.ths[i].hold -= 1;
+            }
+        }
+        if cand.is_empty() {
+            cand = ready.to_vec();
+        }
         // starvation filter
-        let mut cand: Vec<usize> = ready.to_vec();
         if !self.cfg.sched.starve.is_empty() {
             let unstarved: Vec<usize> =
                 cand.iter().cloned().filter(|&i| !self.cfg.sched.starve.iter().any(|r| r == self.ths[i].role)).collect();
@@ -574,8 +641,19 @@ impl Sup {
             // wall-clock guard per inter-syscall segment (pure CPU spin); the length of a run is bounded by steps only
             unsafe {
                 ALARMED = false;
-                libc::alarm(self.cfg.timeout_s);
+                TICK_RETURNS = false;
+                if self.cfg.sched.ustep_p > 0.0 {
+                    TICKING = true;
+                    DEADLINE_NS = mono_ns() + self.cfg.timeout_s as u64 * 1_000_000_000;
+                    let tv = libc::timeval { tv_sec: 0, tv_usec: 100_000 };
+                    let it = libc::itimerval { it_interval: tv, it_value: tv };
+                    libc::setitimer(libc::ITIMER_REAL, &it, std::ptr::null_mut());
+                } else {
+                    TICKING = false;
+                    libc::alarm(self.cfg.timeout_s);
+                }
             }
+            self.ths[i].upark = false;
             self.resume(i);
         }
     }
@@ -659,11 +737,41 @@ impl Sup {
         }
     }
 
+    fn spin_check(&mut self, i: usize) {
+        let tid = self.ths[i].tid;
+        let stat = std::fs::read_to_string(format!("/proc/{}/task/{}/stat", self.pid, tid)).unwrap_or_default();
+        let state = stat.rsplit(')').next().unwrap_or("").trim().chars().next().unwrap_or('?');
+        if std::env::var("XCPSIM_DEBUG_SPIN").is_ok() {
+            eprintln!("spin_check t{} state={} cpu={} cpu0={}", self.ths[i].lid, state, thread_cpu_ns(self.pid, tid), self.seg_cpu0);
+        }
+        if state != 'R' {
+            return;
+        }
+        if thread_cpu_ns(self.pid, tid).saturating_sub(self.seg_cpu0) < 60_000_000 {
+            return;
+        }
+        unsafe { libc::syscall(libc::SYS_tgkill, self.pid, tid, libc::SIGSTOP) };
+        self.force_park = true;
+    }
+
     fn timeout(&mut self, i: usize) {
         let tid = self.ths[i].tid;
         let stat = std::fs::read_to_string(format!("/proc/{}/task/{}/stat", self.pid, tid)).unwrap_or_default();
         let state = stat.rsplit(')').next().unwrap_or("").trim().chars().next().unwrap_or('?');
         let wchan = std::fs::read_to_string(format!("/proc/{}/task/{}/syscall", self.pid, tid)).unwrap_or_default();
+        if state == 'R' && std::env::var("XCPSIM_DEBUG_SPIN").is_ok() {
+            // diagnostic: where does the spinning thread execute, and where are the parked ones
+            unsafe { libc::kill(tid, 0) };
+            unsafe { libc::syscall(libc::SYS_tgkill, self.pid, tid, libc::SIGSTOP) };
+            let _ = wait_tid(tid);
+            let mut msg = format!("spin: t{} rip={:x}", self.ths[i].lid, getregs(tid).rip);
+            for t in self.ths.iter() {
+                if t.st != St::Exited && t.tid != tid {
+                    msg += &format!(" | t{} {:?} hold={} rip={:x}", t.lid, t.st, t.hold, getregs(t.tid).rip);
+                }
+            }
+            eprintln!("{}", msg);
+        }
         self.kill_all();
         if state == 'R' {
             self.outcome = Some(Outcome::Spin);
@@ -751,15 +859,224 @@ impl Sup {
         self.run_until_point(i);
     }
 
+    fn load_proj(&mut self) {
+        self.proj_loaded = true;
+        let mut r = crate::elf::project_ranges(&self.cfg.exe);
+        // load bias of the (position-independent) executable: first mapping of the file
+        let maps = std::fs::read_to_string(format!("/proc/{}/maps", self.pid)).unwrap_or_default();
+        let mut base = 0u64;
+        for l in maps.lines() {
+            if l.ends_with(&self.cfg.exe) {
+                let mut it = l.split_whitespace();
+                let range = it.next().unwrap_or("");
+                let off = it.nth(1).unwrap_or("");
+                if off == "00000000" {
+                    base = u64::from_str_radix(range.split('-').next().unwrap_or("0"), 16).unwrap_or(0);
+                    break;
+                }
+            }
+        }
+        if r.first().map(|x| x.0 >= 0x400000).unwrap_or(false) {
+            base = 0; // not position independent
+        }
+        for x in r.iter_mut() {
+            x.0 += base;
+            x.1 += base;
+        }
+        self.proj = r;
+    }
+
+    fn in_proj(&self, rip: u64) -> bool {
+        let k = self.proj.partition_point(|x| x.0 <= rip);
+        k > 0 && rip < self.proj[k - 1].1
+    }
+
+    /// Single-step the thread for at most k (counted) instructions, never executing a `syscall` instruction.
+    /// With `aim`, only instructions inside the project's own functions are counted and the total is capped.
+    /// Some(true): parked in user space (a scheduling point between two system calls);
+    /// Some(false): the next instruction is a system call (carry on with the normal syscall stop);
+    /// None: the thread or the process went away.
+    fn single_step(&mut self, i: usize, k: u64, aim: bool) -> Option<bool> {
+        let tid = self.ths[i].tid;
+        let mut counted = 0u64;
+        let mut total = 0u64;
+        let cap = if aim { 6000 } else { k };
+        while counted < k && total < cap {
+            let rip = ptrace(libc::PTRACE_PEEKUSER, tid, (16 * 8) as u64, 0) as u64; // offsetof(user_regs_struct, rip)
+            let word = ptrace(libc::PTRACE_PEEKTEXT, tid, rip, 0) as u64;
+            if word & 0xffff == 0x050f {
+                return Some(false);
+            }
+            if !aim || self.in_proj(rip) {
+                counted += 1;
+            }
+            total += 1;
+            let sig = std::mem::replace(&mut self.ths[i].pending_sig, 0);
+            ptrace(libc::PTRACE_SINGLESTEP, tid, 0, sig as u64);
+            self.usteps += 1;
+            match wait_tid(tid) {
+                Ev::Sig(s) => {
+                    if s != libc::SIGTRAP && s != libc::SIGSTOP {
+                        self.ths[i].pending_sig = s;
+                    }
+                }
+                Ev::Syscall | Ev::Event(_) => {}
+                Ev::Timeout => {
+                    self.timeout(i);
+                    return None;
+                }
+                ev => {
+                    self.thread_died(i, ev);
+                    return None;
+                }
+            }
+        }
+        if aim && counted < k {
+            // never reached (enough of) the project's code before the cap: parking here is still a legal preemption
+            self.bump("ustep-aim-missed");
+        }
+        Some(true)
+    }
+
+    fn is_atomic_insn(word: u64) -> bool {
+        // LOCK prefix (possibly after one legacy prefix), or xchg r, m (implicitly locked)
+        let b = word.to_le_bytes();
+        let legacy = |x: u8| matches!(x, 0x66 | 0x67 | 0x2e | 0x36 | 0x3e | 0x26 | 0x64 | 0x65);
+        if b[0] == 0xf0 || (legacy(b[0]) && b[1] == 0xf0) {
+            return true;
+        }
+        let mut k = 0;
+        if legacy(b[k]) {
+            k += 1;
+        }
+        if b[k] & 0xf0 == 0x40 {
+            k += 1;
+        }
+        (b[k] == 0x86 || b[k] == 0x87) && (b[k + 1] >> 6) != 3
+    }
+
+    /// Step to the n-th atomic instruction of this segment (executing it), then `after` more instructions, and park.
+    fn step_to_atomic(&mut self, i: usize, n: u64, after: u64, cap: u64) -> Option<bool> {
+        let tid = self.ths[i].tid;
+        let mut seen = 0u64;
+        let mut left = after;
+        let mut total = 0u64;
+        loop {
+            if total >= cap {
+                self.bump("ustep-no-atomic");
+                return Some(true);
+            }
+            let rip = ptrace(libc::PTRACE_PEEKUSER, tid, (16 * 8) as u64, 0) as u64;
+            let word = ptrace(libc::PTRACE_PEEKTEXT, tid, rip, 0) as u64;
+            if word & 0xffff == 0x050f {
+                return Some(false);
+            }
+            if seen >= n {
+                if left == 0 {
+                    return Some(true);
+                }
+                left -= 1;
+            } else if Self::is_atomic_insn(word) {
+                seen += 1;
+            }
+            total += 1;
+            let sig = std::mem::replace(&mut self.ths[i].pending_sig, 0);
+            ptrace(libc::PTRACE_SINGLESTEP, tid, 0, sig as u64);
+            self.usteps += 1;
+            match wait_tid(tid) {
+                Ev::Sig(s) => {
+                    if s != libc::SIGTRAP && s != libc::SIGSTOP {
+                        self.ths[i].pending_sig = s;
+                    }
+                }
+                Ev::Syscall | Ev::Event(_) => {}
+                Ev::Timeout => {
+                    self.timeout(i);
+                    return None;
+                }
+                ev => {
+                    self.thread_died(i, ev);
+                    return None;
+                }
+            }
+        }
+    }
+
     fn run_until_point(&mut self, i: usize) {
         let tid = self.ths[i].tid;
         loop {
+            if self.cfg.sched.ustep_p > 0.0 && self.usteps < self.cfg.sched.ustep_budget && (self.cfg.sched.ustep_main || self.ths[i].lid != 0) && self.ths.len() > 2 {
+                if self.ustep_rng.f64() < self.cfg.sched.ustep_p {
+                    // log-uniform instruction count: windows right after a call and far from it are both reached
+                    let bits = 1 + self.ustep_rng.below(64 - (self.cfg.sched.ustep_max.max(2) - 1).leading_zeros() as u64);
+                    let k = 1 + self.ustep_rng.below(1u64 << bits).min(self.cfg.sched.ustep_max);
+                    let aim = self.cfg.sched.ustep_aim;
+                    if aim && !self.proj_loaded {
+                        self.load_proj();
+                    }
+                    let aim = aim && !self.proj.is_empty();
+                    let r = if self.cfg.sched.ustep_locks > 0 {
+                        let n = 1 + self.ustep_rng.below(self.cfg.sched.ustep_locks);
+                        let after = self.ustep_rng.below(self.cfg.sched.ustep_after.max(1));
+                        self.step_to_atomic(i, n, after, self.cfg.sched.ustep_max.max(200))
+                    } else {
+                        self.single_step(i, k, aim)
+                    };
+                    match r {
+                        None => return,
+                        Some(true) => {
+                            if self.cfg.sched.ustep_hold > 0 {
+                                self.ths[i].hold = 1 + self.ustep_rng.below(self.cfg.sched.ustep_hold);
+                            }
+                            self.ths[i].upark = true;
+                            self.ths[i].stop = Stop::Fresh;
+                            self.bump("ustep-preempt");
+                            return;
+                        }
+                        Some(false) => {}
+                    }
+                }
+            }
             let sig = std::mem::replace(&mut self.ths[i].pending_sig, 0);
             ptrace(libc::PTRACE_SYSCALL, tid, 0, sig as u64);
-            match wait_tid(tid) {
-                Ev::Syscall => {}
+            let watch = unsafe { TICKING } && self.ths.iter().any(|t| t.upark && t.tid != tid && t.st == St::Ready);
+            if watch {
+                self.seg_cpu0 = thread_cpu_ns(self.pid, tid);
+            }
+            unsafe { TICK_RETURNS = watch };
+            let ev = loop {
+                match wait_tid(tid) {
+                    Ev::Timeout if !past_deadline() => {
+                        unsafe { ALARMED = false };
+                        if watch && !self.force_park {
+                            self.spin_check(i);
+                        }
+                    }
+                    e => break e,
+                }
+            };
+            unsafe { TICK_RETURNS = false };
+            match ev {
+                Ev::Syscall => {
+                    self.force_park = false;
+                }
                 Ev::Event(_) => continue,
                 Ev::Sig(s) => {
+                    if s == libc::SIGSTOP && self.force_park {
+                        // a thread that spin-waits (no system call, no yield) for a thread parked in user space: the state cannot
+                        // change until somebody else runs, so this is a forced, deterministic scheduling point
+                        self.force_park = false;
+                        self.ths[i].stop = Stop::Fresh;
+                        self.ths[i].upark = true;
+                        self.ths[i].hold = 2;
+                        for t in self.ths.iter_mut() {
+                            if t.tid != tid {
+                                t.hold = 0;
+                            }
+                        }
+                        self.bump("spin-wait-preempt");
+                        return;
+                    }
                     if s != libc::SIGSTOP {
                         self.ths[i].pending_sig = s;
                     }
@@ -982,6 +1299,8 @@ impl Sup {
                     role: "?",
                     prio,
                     pending_sig: 0,
+                    hold: 0,
+                    upark: false,
                 });
                 // finish the parent's call
                 self.to_exit_stop(i)
@@ -1869,6 +2188,7 @@ impl Sup {
             "sites": self.sites,
             "threads": self.ths.len(),
             "switches": self.switches,
+            "usteps": self.usteps,
             "max_ready": self.max_ready,
             "peak_fds": self.peak_fds,
             "peak_sb_fds": self.peak_sb_fds,
